@@ -6,7 +6,7 @@ FAMILY = "alloc"
 
 MANIFEST = {
  "level": "other",
- "text": "Proved (Coq, no axioms) about the Gallina model of src/allocator.rs: after ANY history of public operations (started by new_limited(L), L >= 1, byte arguments < 256, no Rust panic = API misuse) atom_count <= 62 500 000, pair_count <= 62 500 000, heap_size <= heap_limit — unconditionally for new_substr with the heap-limit check of notes/fix_F2_limit.diff, and for the unchanged code for every history that does not take new_substr's copy-to-heap branch (C13_caps; C13_current instantiates it with what the translator reads from /repo); per operation the error is TooManyAtoms/TooManyPairs/OutOfMemory exactly when the cap would be exceeded, in the implementation's order of checks; an operation that returns an error leaves the whole state unchanged. C13_refuted: on the unchanged code new_limited(3); new_small_number(0x80); new_substr(it,1,2) succeeds with heap_size 4 (finding F2, reported as KNOWN-FINDING until the fix is committed). Programs (run_program in a pre-loaded allocator) are not modelled here.",
+ "text": "Proved (Coq, no axioms) about the Gallina model of src/allocator.rs: after ANY history of public operations (started by new_limited(L), L >= 1, byte arguments < 256, no Rust panic = API misuse) atom_count <= 62 500 000, pair_count <= 62 500 000, heap_size <= heap_limit — unconditionally for new_substr with the heap-limit check of notes/fix_F2_limit.diff, and for the unchanged code for every history that does not take new_substr's copy-to-heap branch (C13_caps; C13_current instantiates it with what the translator reads from /repo); per operation the error is TooManyAtoms/TooManyPairs/OutOfMemory exactly when the cap would be exceeded, in the implementation's order of checks; an operation that returns an error leaves the whole state unchanged. C13_refuted: on the unchanged code new_limited(3); new_small_number(0x80); new_substr(it,1,2) succeeds with heap_size 4 (finding F2, reported as KNOWN-FINDING until the fix is committed). The heap limit only removes successes: a history that meets no OutOfMemory under limit L has the same observations on the reference accounting under every L' >= L, and the real arena ends with the same counts and node contents under both limits (C13_limit_monotone_ref, C13_limit_monotone, through C12_history; also the LIMIT_HEAP clause of C07). Programs (run_program in a pre-loaded allocator) are not modelled here.",
  "note": vlib.NOTE_COMMON + " Level 'other': histories of allocator operations are proved; the 'programs' half of the quantifier is not modelled, and the model's 'failed operation changes nothing' is by construction of the model and validated only by the correspondence run.",
  "technique": "Coq proof (history invariant by induction over operation lists, checkpoint chain) + model/implementation differential run near every cap + cap monitors on the implementation",
 }
